@@ -1,0 +1,56 @@
+//go:build verif
+
+// Accessors for the verification harness in /verif (property C16). Compiled only with
+// `-tags verif`; not part of the product build. Read-only: every map handed out is a copy.
+
+package env
+
+// VerifKeySets returns the predefined key sets of constants.go by class name.
+func VerifKeySets() map[string]map[string]bool {
+	return map[string]map[string]bool{
+		"internal":           predefinedInternalEnvVarKeys(),
+		"platform":           predefinedPlatformEnvVarKeys(),
+		"runtime":            predefinedRuntimeEnvVarKeys(),
+		"platformUnreserved": predefinedPlatformUnreservedEnvVarKeys(),
+		"credentials":        predefinedCredentialsEnvVarKeys(),
+		"extensionExcluded":  extensionExcludedKeys(),
+	}
+}
+
+// VerifConstKeys returns the key constants of environment.go.
+func VerifConstKeys() map[string]string {
+	return map[string]string{
+		"runtimeAPIAddress": runtimeAPIAddressKey,
+		"handler":           handlerEnvKey,
+		"executionEnv":      executionEnvKey,
+		"taskRoot":          taskRootEnvKey,
+		"runtimeDir":        runtimeDirEnvKey,
+	}
+}
+
+func verifCopy(m map[string]string) map[string]string {
+	c := make(map[string]string, len(m))
+	for k, v := range m {
+		c[k] = v
+	}
+	return c
+}
+
+// VerifLayers returns copies of the six layers of e by name.
+func (e *Environment) VerifLayers() map[string]map[string]string {
+	return map[string]map[string]string{
+		"customer":           verifCopy(e.Customer),
+		"rapid":              verifCopy(e.rapid),
+		"platform":           verifCopy(e.platform),
+		"runtime":            verifCopy(e.runtime),
+		"platformUnreserved": verifCopy(e.platformUnreserved),
+		"credentials":        verifCopy(e.credentials),
+	}
+}
+
+// VerifReady reports whether RuntimeExecEnv / AgentExecEnv would return (they call log.Fatal,
+// i.e. exit the process, otherwise).
+func (e *Environment) VerifReady() bool { return e.initEnvVarsSet && e.runtimeAPISet }
+
+// VerifIsInternalEnvVar exposes isInternalEnvVar (customer.go).
+func VerifIsInternalEnvVar(key string) bool { return isInternalEnvVar(key) }
